@@ -818,6 +818,9 @@ class CompositeCanvas(Canvas):
             self.trim(trim_top, rows)
 
         cols = self.cols()
+        if (top > 0 or bottom > 0) and self.rows() == 0:
+            # a canvas without rows contributes no shard of its own once it is padded
+            self.shards = []
         if top > 0:
             self.shards = [(top, [(0, 0, cols, top, None, blank_canvas)]), *self.shards]
             self.coords = self.translate_coords(0, top)
